@@ -40,12 +40,28 @@ def _is_iterator(t):
 def rule_R11(chk, lib):
     n = 0
     seen = set()
+    # helper methods that are called from another method of their class are read where they are called (inlined), with
+    # their parameters bound to the arguments
+    called = set()
+    by_cls = {}
     for fn in lib.decls:
-        if fn["kind"] != "function" or fn.get("body") is None or fn.get("dependent"):
+        if fn["kind"] == "function" and fn.get("body") is not None and not fn.get("dependent") and fn.get("cls"):
+            by_cls.setdefault(fn["cls"], []).append(fn)
+    for cls, fns in by_cls.items():
+        names = {f["full"].split("(")[0] for f in fns}
+        for f in fns:
+            for x in C.walk_stmt(f["body"]):
+                if x.get("k") == "Call" and x.get("fn") in names and x["fn"] != f["full"].split("(")[0]:
+                    called.add(x["fn"])
+    for fn0 in lib.decls:
+        if fn0["kind"] != "function" or fn0.get("body") is None or fn0.get("dependent"):
             continue
-        key = (fn["full"], fn.get("file"), fn.get("line"))
+        key = (fn0["full"], fn0.get("file"), fn0.get("line"))
         if key in seen:
             continue
+        if fn0["full"].split("(")[0] in called:
+            continue
+        fn = C.with_inlined_helpers(fn0, by_cls.get(fn0.get("cls"), [])) if fn0.get("cls") else fn0
         typed = {}
         for x in C.walk_stmt(fn["body"]):
             if C.is_call(x, name="set_type") and x.get("obj") is not None and x["a"]:
@@ -140,6 +156,10 @@ def rule_R11(chk, lib):
             verdicts = []
             for dcall in deps:
                 d0 = C.strip_casts(dcall["a"][0])
+                hops = 0
+                while d0.get("k") == "Ref" and d0.get("id") in decls and decls[d0["id"]].get("init") is not None and hops < 4:
+                    d0 = C.strip_casts(decls[d0["id"]]["init"])      # a lock named in a local first
+                    hops += 1
                 got = None
                 if d0.get("k") == "Call" and d0.get("n") == "get_dependency" and d0.get("obj") is not None:
                     got = identity_of_subgrid(d0["obj"])
